@@ -24,10 +24,11 @@ SeqToSet(s) == {s[i] : i \in 1..Len(s)}
 
 RECURSIVE DPowI(_, _)
 DPowI(a, k) == IF k = 0 THEN DOne ELSE IF k > 0 THEN DMul(a, DPowI(a, k - 1)) ELSE DDiv(DOne, DPowI(a, -k))
-RECURSIVE MaxAbs(_, _, _)
-MaxAbs(s, i, acc) == IF i > Len(s) THEN acc
-                     ELSE MaxAbs(s, i + 1, TLCEval(IF s[i] = NaNMark THEN acc ELSE DMax(acc, DAbs(s[i]))))   \* (eager: no thunk chain)
-
+\* the largest finite magnitude of a sequence: the record names the position (o.imax, 0 = no finite element),
+\* the specification checks that it is one (no recursion: TLC re-evaluates accumulators of recursive operators)
+IsFinite(x) == x # NaNMark
+MaxOk(s, k) == IF k = 0 THEN \A i \in 1..Len(s) : ~IsFinite(s[i])
+               ELSE k \in 1..Len(s) /\ IsFinite(s[k]) /\ \A i \in 1..Len(s) : IsFinite(s[i]) => DLeq(DAbs(s[i]), DAbs(s[k]))
 \* expected factor of one key in this scenario
 \*   variant "rep"/"json": the evaluated unit monomial;  "scale": (n/d)^exponent
 KeyFactor(q, o) ==
@@ -36,21 +37,20 @@ KeyFactor(q, o) ==
 ExpectedVec(q, o) ==
    IF q.variant = "rep" THEN Pairs(RepFactor2(q.an, o.key, q.sS0, q.sR0, q.sS, q.sR)) ELSE {}
 
-\* index of the first element satisfying P, 0 if none (linear scan)
-RECURSIVE FirstTrue(_, _)
-FirstTrue(flags, i) == IF i > Len(flags) THEN 0 ELSE IF flags[i] THEN i ELSE FirstTrue(flags, i + 1)
-First(s, P(_)) == FirstTrue(TLCEval([i \in 1..Len(s) |-> P(i)]), 1)
+\* index of the first element satisfying P, 0 if none
+First(s, P(_)) == LET bad == {i \in 1..Len(s) : P(i)} IN IF bad = {} THEN 0 ELSE CHOOSE i \in bad : \A j \in bad : i <= j
 
 KeyClause(q, o) ==
    LET d == ResultDims(q.an, o.key)
        tol == DTol(TolExp(q.an, o.key))
        f == TLCEval(KeyFactor(q, o))
        want == TLCEval([i \in 1..Len(o.base) |-> IF o.base[i] = NaNMark THEN NaNMark ELSE DMul(o.base[i], f)])
-       atol == TLCEval(IF Len(o.base) > 1 THEN DMul(tol, MaxAbs(want, 1, DZero)) ELSE DZero)
+       atol == TLCEval(IF Len(o.base) > 1 /\ o.imax > 0 THEN DMul(tol, DAbs(want[o.imax])) ELSE DZero)
        trivial == f = DOne \/ DClose(f, DOne, DTol(6))
    IN
    IF d.kind = "free" THEN [c |-> "not_judged", i |-> 0]
    ELSE IF q.variant = "rep" /\ SeqToSet(o.vec) # ExpectedVec(q, o) THEN [c |-> "MACHINERY:factor_monomial_is_not_the_one_the_specification_names", i |-> 0]
+   ELSE IF ~MaxOk(o.base, o.imax) THEN [c |-> "MACHINERY:imax_is_not_the_position_of_the_largest_magnitude", i |-> 0]
    ELSE IF Len(o.val) # Len(o.base) THEN [c |-> "shape_changed", i |-> 0]
    ELSE IF d.kind = "index" THEN
         LET b == First(o.base, LAMBDA i : o.val[i] # o.base[i]) IN
